@@ -1066,8 +1066,9 @@ bool StepScript(ScriptExecutionEnvironment& env, CScript::const_iterator& pc, CS
                     // If SCRIPT_VERIFY_CONST_SCRIPTCODE flag is set, use of OP_CODESEPARATOR is rejected in pre-segwit
                     // script, even in an unexecuted branch (this is checked above the opcode case statement).
 
-                    // Hash starts after the code separator
-                    pbegincodehash = pc;
+                    // Hash starts after the code separator (an exec'd separator lives in a
+                    // temporary script; pbegincodehash must keep pointing into env.script)
+                    if (!local_script) pbegincodehash = pc;
                     execdata.m_codeseparator_pos = opcode_pos;
                 }
                 break;
